@@ -161,6 +161,26 @@ let swapGPair (p: GPair<int, string>) =
   {GFst=p.GSnd; GSnd=p.GFst}
 
 `)
+	// ---- a generic union with several type parameters: interface GRes[T, E], case structs
+	// GRes_GOk[T, E] / GRes_GErr[T, E], constructors New_GRes_GOk[T, E] (functions: the union is generic)
+	foB.WriteString(`type GRes<T, E> =
+  | GOk of T
+  | GErr of E
+  | GNone
+
+let mkGOk () =
+  GOk<int, string> 5
+
+let resToInt (r: GRes<int, string>) =
+  match r with
+  | GOk n -> n
+  | GErr _ -> 0 - 1
+  | GNone -> 0
+
+`)
+	cl.WriteString("\tvar gr GRes[int, string] = New_GRes_GErr[int, string](\"bad\")\n\tswitch v := gr.(type) {\n\tcase GRes_GOk[int, string]:\n\t\tfmt.Println(\"ok\", v.Value)\n\tcase GRes_GErr[int, string]:\n\t\tfmt.Println(\"err\", v.Value)\n\tcase GRes_GNone[int, string]:\n\t\tfmt.Println(\"none\")\n\t}\n")
+	cl.WriteString("\tfmt.Println(resToInt(mkGOk()), resToInt(gr), resToInt(New_GRes_GNone[int, string]()))\n")
+	exp.WriteString("err bad\n5 -1 0\n")
 	cl.WriteString("\tvar gp GPair[int, string] = mkGPair()\n\tfmt.Println(gp.GFst, gp.GSnd)\n")
 	cl.WriteString("\tvar gg GPair[string, bool] = mkGGen[string, bool](\"x\", true)\n\tfmt.Println(gg.GFst, gg.GSnd)\n")
 	cl.WriteString("\tvar gt GTrip[int, string, bool] = mkGTrip(5)\n\tfmt.Println(gt.GT1, gt.GT2, gt.GT3, useGPair())\n")
